@@ -2830,9 +2830,12 @@ class AggregateBase(UnitsManaged, Saveable, OpenSystem):
                     Ndim = HH.dim
                     re = numpy.zeros(Ndim-start, dtype=numpy.float64)
                     # we need to subtract reorganization energies
+                    # (states of the band are vibronic; the reorganization
+                    # energy is the one of the molecule which is excited)
                     for i in range(n1ex):
                         re[i] = \
-                        self.sbi.get_reorganization_energy(i)
+                        self.sbi.get_reorganization_energy(
+                                                self.elinds[start+i]-1)
                 else:
                     HH = relaxation_hamiltonian
                     Ndim = HH.dim
